@@ -6,7 +6,8 @@ namespace Driver.AgentFam
 open StunVerif StunVerif.Agent Driver
 
 def addrs : List String :=
-  ["4:c0000201:3478", "4:c0000201:3479", "6:20010db8000000000000000000000001:3478", "4:0a000001:9"]
+  ["4:c0000201:3478", "4:c0000201:3479", "6:20010db8000000000000000000000001:3478", "4:0a000001:9",
+   "6:00000000000000000000ffffc0000207:3478", "4:c0000207:3478"]
 def tids : List Nat :=
   [0x01, 0x02030405060708090a0b0c0d, 0xffffffffffffffffffffffff, 0x2112a442, 0x700000000000000000000001]
 
